@@ -773,3 +773,19 @@ package commitlog
 //@   loop 1 invariant forall i int :: 0 <= i && i < len(l.epochOffsets) ==> l.epochOffsets[i] == old(l.epochOffsets[i])
 //@   loop 1 invariant removed == rangeindex + 1 || (removed <= rangeindex && old(l.epochOffsets[removed].startOffset) >= offset)
 //@   loop 1 invariant forall i int :: 0 <= i && i < removed ==> earliest[i] == old(l.epochOffsets[i]) && old(l.epochOffsets[i].startOffset) < offset
+
+// Replace / Rebase (used when a clean swaps the segment list): the history installed is well-formed again; Replace
+// takes over the rebuilt history, Rebase keeps the own entries and only appends newer epochs of the other history
+// that start at or after the given offset
+//@ func (*leaderEpochCache).Replace serves C02, C08
+//@   requires l != nil && from != nil && wfEpochs(from)
+//@   ensures [taken-over] l.epochOffsets == old(from.epochOffsets)
+//@   ensures [wf] wfEpochs(l)
+//@ func (*leaderEpochCache).Rebase$1 serves C02, C08
+//@   ensures result == (from.epochOffsets[i].startOffset >= offset)
+//@ func (*leaderEpochCache).Rebase serves C02, C08
+//@   requires l != nil && from != nil && l != from && wfEpochs(l) && wfEpochs(from)
+//@   ensures [wf] wfEpochs(l)
+//@   ensures [own-history-kept] len(l.epochOffsets) >= old(len(l.epochOffsets)) && (forall i int :: 0 <= i && i < old(len(l.epochOffsets)) ==> l.epochOffsets[i] == old(l.epochOffsets[i]) && l.epochOffsets[i].leaderEpoch == old(l.epochOffsets[i].leaderEpoch) && l.epochOffsets[i].startOffset == old(l.epochOffsets[i].startOffset))
+//@   call assign requires [only-newer-epochs] arg1 > (len(l.epochOffsets) == 0 ? 0 : l.epochOffsets[len(l.epochOffsets)-1].leaderEpoch)
+//@   loop 1 invariant wfEpochs(l) && len(l.epochOffsets) >= old(len(l.epochOffsets)) && (forall i int :: 0 <= i && i < old(len(l.epochOffsets)) ==> l.epochOffsets[i] == old(l.epochOffsets[i]) && l.epochOffsets[i].leaderEpoch == old(l.epochOffsets[i].leaderEpoch) && l.epochOffsets[i].startOffset == old(l.epochOffsets[i].startOffset))
